@@ -121,7 +121,7 @@ PROPS = {
     "C09": {
         "traced_too": True,
         'coq': 'Properties/C09.v',
-        'streams': ['loop', 'loopadv', 'isolate'],
+        'streams': ['loop', 'loopadv', 'isolate', 'unixapi'],
         'level_text': "C09_frame: a message from address a leaves every binding (b, s), b<>a, untouched; C09_restart_discards_own_flows_only; C09_handle_origin (invariant over all histories) and C09_commands_go_to_origin: every handle command is sent to the creating address with the flow's id.",
         'level_note': 'Coq kernel; no axioms; hand-written model of run_inner (src/run.rs), Datapath/Report (src/lib.rs) and Backend::next, with user callbacks and send failures as arbitrary oracles; tied to the code by running RunBuilder::run inline over a scripted Ipc with recording algorithms on the same histories (model and implementation logs compared after sorting hash-ordered DROP/INSTALL batches and renaming uids through the install messages). Assumes handles are used only inside the three callbacks.',
         'rule': 'isolate: the implementation alone on a history and on the same history restricted to one address (what that datapath sees must be the same; 1 500 / 30 000 pairs); loopadv additionally draws the addresses of a third of its histories from pairs of distinct 64-bit addresses that a digest-keyed table would confuse (equal low 32 bits of the standard hasher, equal modulo 2^32, equal modulo 2^8); structured random histories over 3 addresses x 4 flow ids: ready / create (9 algorithm names incl. prefixes, extensions, empty, 63 bytes) / measurement for live and dead flows / close / unknown, 1-4 messages per datagram (occasionally 10-14, exceeding the 1024-byte buffer), restarts, re-creates, receive errors, stop requests; 0-3 additional algorithms with duplicate names and absent instances, 6 table programs incl. a duplicate name and an uncompilable one; callbacks issue set_program/update_field/get_field lists; non-trivial = commands sent to at least two different addresses',
@@ -131,7 +131,7 @@ PROPS = {
     "C11": {
         "traced_too": True,
         'coq': 'Properties/C11.v',
-        'streams': ['loop'],
+        'streams': ['loop', 'apiorder'],
         'level_text': "C11_set_program_refuses / C11_update_field_refuses / C11_set_program_succeeds / C11_set_program_accepts: a command succeeds iff the program is known and every field is controllable; refusal transmits nothing, success transmits exactly one message with the flow id, the program's uid and the pairs in order.",
         'level_note': 'Coq kernel; no axioms; hand-written model of run_inner (src/run.rs), Datapath/Report (src/lib.rs) and Backend::next, with user callbacks and send failures as arbitrary oracles; tied to the code by running RunBuilder::run inline over a scripted Ipc with recording algorithms on the same histories (model and implementation logs compared after sorting hash-ordered DROP/INSTALL batches and renaming uids through the install messages). Assumes handles are used only inside the three callbacks.',
         'rule': 'structured random histories over 3 addresses x 4 flow ids: ready / create (9 algorithm names incl. prefixes, extensions, empty, 63 bytes) / measurement for live and dead flows / close / unknown, 1-4 messages per datagram (occasionally 10-14, exceeding the 1024-byte buffer), restarts, re-creates, receive errors, stop requests; 0-3 additional algorithms with duplicate names and absent instances, 6 table programs incl. a duplicate name and an uncompilable one; callbacks issue set_program/update_field/get_field lists; non-trivial = both an accepted and a refused command in the history',
@@ -234,7 +234,7 @@ PROPS = {
                       "the compiled libccp 1.2.0 C code and to the Coq model of it, and return codes, staged values and register dumps are compared.",
         "level_note": "Coq kernel; no axioms; encoder model validated differentially through the loop stream (handle commands) and this stream; libccp 1.2.0 (vendored, "
                       "checksummed, compiled unmodified with gcc under a scripted clock) is the reference datapath: an oracle, not verified.",
-        "streams": ["c06", "loop", "loopadv"],
+        "streams": ["c06", "loop", "loopadv", "c14"],
         "rule": "loopadv: commands after failed sends; a ninth table program that places shared control names at other indices; update lists of every 7th length 0..300 (thorough: all) plus 126..129, 221..223, 254..257 in change-program and update-fields messages; 22 register kinds "
                 "(every class, boundary indices, immediates) x 5 boundary values; programs of 1..4000 statements (image sizes straddling 65535 bytes and libccp's "
                 "255-instruction limit); each message is read by the real libccp and by its model, then an invocation shows the staged values; "
